@@ -5,6 +5,7 @@ use super::script::*;
 use super::Gen;
 use crate::rng::Rng;
 use crate::term::*;
+use molt::types::*;
 
 const VARS: [&str; 5] = ["n", "m", "l", "d", "s"];
 
@@ -138,8 +139,48 @@ pub fn gen(tier: &str, seed: u64) -> Gen {
             nd += 1;
         }
     }
+    // one string seen through several typed views in sequence: the same Value (with whatever it
+    // has cached so far) in the first form, a fresh copy for every view in the second
+    let pool = [
+        " 3 ", "0x10", "1 2", "a b c d", "{a} b", "set m $n; incr m", "1e2", "007", "+5", "true", " 12", "a\tb",
+        "k v k w", "{1 2} {3 4}", "-0", "0.0", "1.50", "  ", "", "llength {a b}", "list a b", "9223372036854775807",
+        "-9223372036854775808", "0b1", "Inf", "NaN", "yes", "off", "set n", "incr m; incr m", "return $n", "{",
+        "a {b c} d e", "1 ", "\n2", "$n", "[incr m]", "x;y",
+    ];
+    let views: [(&str, &str); 14] = [
+        ("incr m $s", "incr m [ident $s]"),
+        ("expr {$s + 1}", "expr {[ident $s] + 1}"),
+        ("expr {$s ? \"t\" : \"f\"}", "expr {[ident $s] ? \"t\" : \"f\"}"),
+        ("llength $s", "llength [ident $s]"),
+        ("lindex $s 0", "lindex [ident $s] 0"),
+        ("dict size $s", "dict size [ident $s]"),
+        ("if 1 $s", "if 1 [ident $s]"),
+        ("foreach e $s {append d <$e>}", "foreach e [ident $s] {append d <$e>}"),
+        ("string length $s", "string length [ident $s]"),
+        ("proc q {} $s; q", "proc q {} [ident $s]; q"),
+        ("list {*}$s", "list {*}[ident $s]"),
+        ("string cat $s $s", "string cat [ident $s] [ident $s]"),
+        ("set n $s; expr {$n * 2}", "set n [ident $s]; expr {[ident $n] * 2}"),
+        ("dict get $s k", "dict get [ident $s] k"),
+    ];
+    let nv = if thorough { 60_000 } else { 2500 };
+    for _ in 0..nv {
+        let lit = pool[rng.below(pool.len())];
+        let q = Value::from(vec![Value::from(lit)]);
+        let mut p = format!("set s {}\n", q.as_str());
+        let mut s2 = p.clone();
+        let k = 2 + rng.below(4);
+        for _ in 0..k {
+            let (a, b) = views[rng.below(views.len())];
+            p.push_str(&format!("lappend l [catch {{{}}} r] $r\n", a));
+            s2.push_str(&format!("lappend l [catch {{{}}} r] $r\n", b));
+        }
+        p.push_str("list $n $m $l $d $s");
+        s2.push_str("list $n $m $l $d $s");
+        cases.push(tl(vec![tb(false), ts(&p), ts(&s2)]));
+    }
     let n = n + nd;
-    (cases, vec![(format!("random programs over numbers, lists, dicts and strings, each rendered as written and with every read passed through `ident` ({} of them may build floats)", nf), n, false)])
+    (cases, vec![(format!("{} sequences of 2-5 typed views (integer, boolean, list, dict, script, procedure body, expansion, string) of one string from a pool of {} ambiguous literals, on the shared value and on fresh copies", nv, pool.len()), nv, false), (format!("random programs over numbers, lists, dicts and strings, each rendered as written and with every read passed through `ident` ({} of them may build floats)", nf), n, false)])
 }
 
 pub fn run(case: &Term) -> Term {
